@@ -81,10 +81,23 @@ def foreign_session_cases(base, n):
     return out
 
 
+def stashed_pake_cases(base, n):
+    """the victim enters its code with the input helper and types the words late: a fabricated PAKE (from the server or a
+    third participant on the nameplate) is waiting, stashed, when the words arrive - it is then processed inside the
+    application's own choose_words() call, not while a server message is being handled"""
+    out = []
+    for i in range(n):
+        out.append({"seed": base + i, "late_words": True,
+                    "ops": [{"victim": "B", "at": 0, "op": "inject", "keep": True, "phase": "pake", "as": ["peer", "fresh"][i % 2],
+                             "wellformed": [True, True, False][i % 3]}]})
+    return out
+
+
 def cases(tier, seed, prep=None):
     import random
     out = []
     rng = random.Random(seed * 77 + 2)
+    out += stashed_pake_cases(seed * 1000003 + 280000, 30 if tier == "quick" else 900)
     if tier == "quick":
         for i in range(520):
             out.append({"seed": seed * 1000003 + 200000 + i, "ops": [one_op(rng) for _ in range(rng.choice([1, 1, 2, 3]))]})
@@ -145,7 +158,20 @@ def run_case(spec):
         d1.a.close()
         d1.b.close()
         s1.drain(60.0, 3000, until=lambda: d1.a.closed and d1.b.closed)
+    if spec.get("late_words"):
+        cfg["a_code"], cfg["b_code"] = "set", "input"
     drv = TwoParty(world, cfg)
+    if spec.get("late_words"):
+        base_actions = drv.actions
+
+        def actions():
+            acts = base_actions()
+            got_pake = any(m.get("type") == "message" and m.get("phase") == "pake" and m.get("side") != drv.b.w._boss._side for (_, m) in drv.b.inbound)
+            if not got_pake:
+                acts = [a for a in acts if a[0] != ("app", "B.choose_words")]
+            return acts
+        drv.actions = actions
+        drv.drain_actions = actions
     if dilated:
         for app in (drv.a, drv.b):
             try:
@@ -180,6 +206,13 @@ def run_case(spec):
     world.finish()
 
     viol = []
+    # "ignores the message or closes with an error": an application call that raises something undocumented because of
+    # what the server sent is neither
+    for e in world.escapes:
+        if e[1] == "app" and e[3] not in ("WormholeClosed", "KeyFormatError", "WrongPasswordError", "LonelyError", "ServerError", "WelcomeError", "OnlyOneCodeError",
+                                            "AlreadyChoseNameplateError", "AlreadyChoseWordsError", "MustChooseNameplateFirstError", "NoKeyError", "OldPeerCannotDilateError"):
+            viol.append({"key": "C02/api-call-raises/%s" % e[3], "msg": "%s: %s" % (e[2][:80], e[4]), "witness": {"spec": spec, "escape": list(e)[:5]}})
+            break
     # which tampered messages did a client really process?
     processed = 0
     for (v, kind, kw) in adv.tampered:
